@@ -81,6 +81,7 @@ Truth(x) ==   \* condition of IF: TRUE / FALSE / error value
     [] x.k = "t" -> Err("VALUE")
 
 Scalar(x) == IF x.k = "a" THEN x.rows[1][1] ELSE x   \* a cell shows the top-left element
+IsErrLike(x) == x.k = "e" \/ x.k = "any"             \* an error value (possibly one of several)
 
 Ev(W, v, e) ==
   CASE e[1] = "c" -> e[2]
@@ -88,7 +89,9 @@ Ev(W, v, e) ==
     [] e[1] = "rng" -> RangeMatrix(W, v, e)
     [] e[1] = "name" -> (LET r == W.names[e[2]]
                          IN IF r[1] = "ref" THEN Look(v, r[2]) ELSE RangeMatrix(W, v, r))
-    [] e[1] = "miss" -> (IF e[2] = "fn" THEN Err("NAME") ELSE Err("REF"))
+    [] e[1] = "miss" -> (IF e[2] = "fn" THEN Err("NAME")
+                         ELSE IF e[2] = "name" THEN AnyOf(<<Err("REF"), Err("NAME")>>)
+                         ELSE Err("REF"))
     [] e[1] = "op" -> Lift2(e[2], Ev(W, v, e[3]), Ev(W, v, e[4]))
     [] e[1] = "un" -> Lift1(e[2], Ev(W, v, e[3]))
     [] e[1] = "fn" ->
@@ -106,8 +109,8 @@ Ev(W, v, e) ==
                         ELSE IF c.b THEN Ev(W, v, args[2]) ELSE Ev(W, v, args[3]))
                [] f = "IFERROR" ->
                     (LET x == Scalar(Ev(W, v, args[1]))
-                     IN IF x.k = "e" THEN Ev(W, v, args[2]) ELSE x)
-               [] f = "ISERROR" -> Bool(Scalar(Ev(W, v, args[1])).k = "e")
+                     IN IF IsErrLike(x) THEN Ev(W, v, args[2]) ELSE x)
+               [] f = "ISERROR" -> Bool(IsErrLike(Scalar(Ev(W, v, args[1]))))
                [] f = "ISNUMBER" -> Bool(Scalar(Ev(W, v, args[1])).k = "n"))
 
 \* a formula cell shows a blank result as 0
@@ -135,11 +138,21 @@ Deps(W, id) ==
        [] c.k = "sp" -> {c.anchor}
        [] OTHER -> {d \in ExprIds(W, c.e) : Populated(W, d)}
 
+\* a formula that uses an unimplemented function evaluates, as a whole, to #NAME?
+RECURSIVE HasMissFn(_), AnyMissFn(_)
+AnyMissFn(args) == IF args = <<>> THEN FALSE ELSE HasMissFn(Head(args)) \/ AnyMissFn(Tail(args))
+HasMissFn(e) ==
+  CASE e[1] = "miss" -> e[2] = "fn"
+    [] e[1] = "op" -> HasMissFn(e[3]) \/ HasMissFn(e[4])
+    [] e[1] = "un" -> HasMissFn(e[3])
+    [] e[1] = "fn" -> AnyMissFn(e[3])
+    [] OTHER -> FALSE
+
 \* ---- one evaluation step of a cell under a valuation ---------------------------
 EvalCell(W, v, id) ==
   LET c == W.cells[id]
   IN CASE c.k = "c" -> c.v
-       [] c.k = "f" -> CellShow(Ev(W, v, c.e))
+       [] c.k = "f" -> (IF HasMissFn(c.e) THEN Err("NAME") ELSE CellShow(Ev(W, v, c.e)))
        [] c.k = "af" -> CellShow(Fit(Ev(W, v, c.e), c.r, c.c))
        [] c.k = "sp" -> (LET a == W.cells[c.anchor]
                              x == Fit(Ev(W, v, a.e), a.r, a.c).rows[c.i][c.j]
